@@ -185,7 +185,7 @@ int main (int argc, char **argv)
   _dbus_string_init_const (&cfg, argv[1]);
   ctx = bus_context_new (&cfg, BUS_CONTEXT_FLAG_NONE, NULL, NULL, NULL, &e);
   if (!ctx) { fprintf (stderr, "context: %s\n", e.message); return 2; }
-  printf ("{\"e\":\"Reset\",\"cfg\":{\"maxNames\":100000,\"maxMatch\":100000,\"maxReplies\":100000,\"maxCompleted\":100000,\"maxPerUser\":100000,\"busUid\":0,\"policy\":{\"kind\":\"allow-all\"},\"maxMsgFds\":16}}\n");
+  printf ("{\"e\":\"Reset\",\"cfg\":{\"maxNames\":100000,\"maxMatch\":100000,\"maxReplies\":100000,\"maxCompleted\":100000,\"maxPerUser\":100000,\"busUid\":0,\"policy\":{\"kind\":\"allow-all\"},\"maxMsgFds\":16,\"maxMsgSize\":33554432}}\n");
   for (i = 1; i <= NCLIENT; i++)
     {
       cl[i] = dbus_connection_open_private ("debug-pipe:name=test-server", &e);
